@@ -805,13 +805,13 @@ void SolveConstrainedSystemNullSpace (
 #else
   switch (linear_solver) {
   case (LinearSolverPartialPivLU) :
-    lambda = (G * Y).partialPivLu().solve (Y.transpose() * (H * qddot - c));
+    lambda = (G * Y).transpose().partialPivLu().solve (Y.transpose() * (H * qddot - c));
     break;
   case (LinearSolverColPivHouseholderQR) :
-    lambda = (G*Y).colPivHouseholderQr().solve (Y.transpose()*(H*qddot - c));
+    lambda = (G*Y).transpose().colPivHouseholderQr().solve (Y.transpose()*(H*qddot - c));
     break;
   case (LinearSolverHouseholderQR) :
-    lambda = (G * Y).householderQr().solve (Y.transpose() * (H * qddot - c));
+    lambda = (G * Y).transpose().householderQr().solve (Y.transpose() * (H * qddot - c));
     break;
   default:
     LOG << "Error: Invalid linear solver: " << linear_solver << std::endl;
